@@ -5,7 +5,8 @@ PROP = dict(
     lean_module="AbraProofs.Properties.C25",
     required_theorems=["C25_sort_perm", "C25_sort_sorted", "C25_sort_stable", "C25_sort_spec", "C25_sort_int",
                        "C25_sort_by_key_spec", "C25_sort_by_key_int", "C25_sort_lex_pairs",
-                       "C25_mergePass_structure", "C25_merge_left_wins"],
+                       "C25_mergePass_structure", "C25_merge_left_wins", "C25_merge_by_in_place",
+                       "C25_insertion_sort_in_place", "C25_sort_by_index_level", "C25_sort_array_level"],
     harness_bin="c25",
     mismatch_is_violation=True,
     rule="(quick) every length 0-70 plus 95-97, 127-129, 160, 191-193, 255-257, 300 / (thorough) every length 0-300 twice, the "
@@ -18,17 +19,19 @@ PROP = dict(
          "for the unlawful ones to be a permutation; non-trivial = at least 2 elements",
     nontrivial=lambda req, imp: len(req.split(" #")[0].split()) >= 4,
     trusted_base=COMMON_TB + [
-        "the functional list model Abra.Lib.sortBy is a hand transliteration of the while loops of sort_by / insertion_sort_by / merge_by "
-        "(prelude.abra); the step from the Abra loops to the list model is checked by correspondence for lawful and unlawful comparators, not proved "
-        "(the Lean reference interpreter for Abra source proposed in DESIGN.md does not exist yet, so the tie is two-way: model vs. real VM)",
+        "the index-level model Abra.Lib.sortByA (whole array, the source's variables i/end/size/left/mid/right/i_curr/j/k, scratch array temp, in-place "
+        "writes) is a hand transliteration of sort_by / insertion_sort_by / merge_by (prelude.abra); it is what the driver runs, and it is PROVED equal to the "
+        "list model sortBy the property theorems are stated about; the step from the Abra source text to sortByA is checked by correspondence for lawful "
+        "and unlawful comparators, not proved (the Lean reference interpreter for Abra source proposed in DESIGN.md does not exist yet: two-way tie)",
         "array lengths are far below 2^62, so `size * 2` and the index sums in sort_by cannot overflow (the model uses unbounded naturals)",
     ],
     assumptions=["the comparator passed to sort_by is a pure function; sortedness and stability are claimed for total, transitive comparators (the built-in <= on int, on keys, and on tuples is shown to be one)"],
     design_ref="DESIGN.md §6 C25",
     level_text="Theorems over all lists of any length: the model of sort_by returns a permutation for every comparator, a sorted list and a "
                "stable arrangement for every total transitive comparator; corollaries for sort on int and on (int,int) and for sort_by_key. "
-               "The model follows the source's run/merge index arithmetic and is tied to /repo on every run by sorting arrays with the real "
+               "The same is proved for the index-level model (in-place merge with scratch array, shifting insertion sort, the run/size/left loops), "
+               "which is tied to /repo on every run by sorting arrays with the real "
                "prelude on the real VM under lawful and unlawful comparators and diffing against the model driver.",
-    level_note="The step from the Abra while-loops to the list model is by correspondence (two-way tie: model vs. VM), not a program proof.",
+    level_note="Index-level model (arrays, indices, in-place writes) proved equal to the list model; only the step from the Abra source text to the index-level model is by correspondence.",
     technique="Lean 4 theorems (induction over the run/merge structure) about a hand-written list model + differential correspondence against the real prelude on the real VM + executable property check on the implementation's output",
 )
